@@ -55,17 +55,7 @@ contract("proto:stmt_call", trusted=True,
     raises={"NoMatchError": {"restores": "view == old(view)", "reader_lines_kept": "implies(old(len(reader.source_lines) > 0 and 0 <= reader.linecount and reader.linecount + len(reader.filo_line) == len(reader.source_lines)), len(reader.source_lines) > 0 and 0 <= reader.linecount and reader.linecount + len(reader.filo_line) == len(reader.source_lines))"}, "*!NoMatchError!StopIteration": {}},
     note="statement-level rule call (Base.__new__ statement branch, proved as Base.__new__@stmt): never touches scopes or tables")
 
-contract("proto:add_comments", trusted=True,
-    types=dict(content="list[ref:Base]", reader="FortranReaderBase"), mutates=["content"],
-    modifies=["view", "*.fifo_item", "*.linecount", "*.filo_line", "*.source_lines", "*.isclosed"],
-    ensures={
-        "appends_only": "len(content) >= len(old(content)) and content[:len(old(content))] == old(content)",
-        "accounts_for_view": "cons(old(content)) + old(view) == cons(content) + view",
-        "reader_lines_kept": "implies(old(len(reader.source_lines) > 0 and 0 <= reader.linecount and reader.linecount + len(reader.filo_line) == len(reader.source_lines)), len(reader.source_lines) > 0 and 0 <= reader.linecount and reader.linecount + len(reader.filo_line) == len(reader.source_lines))",
-        "lines_read": "implies(len(content) > len(old(content)), len(reader.source_lines) > 0 and 0 <= reader.linecount and reader.linecount + len(reader.filo_line) == len(reader.source_lines))",
-    },
-    raises={"*!StopIteration": {}},
-    note="add_comments_includes_directives(content, reader): appends the nodes for the leading comment/include/directive items")
+# (proto:add_comments was replaced by the verified contract of add_comments_includes_directives, contracts/comments_directives.py)
 
 contract("proto:get_scope_name", trusted=True, pure=True,
     types=dict(self="ref:Base"), returns="str",
